@@ -427,7 +427,7 @@ pub fn c16(rep: &mut Rep, seed: u64) {
     for t in &base {
         let lines: Vec<&str> = t.lines().filter(|l| !l.trim().is_empty()).collect();
         if lines.is_empty() { continue; }
-        for _ in 0..60 {
+        for _ in 0..crate::preds::scale() {
             let mut l: Vec<String> = lines.iter().map(|s| s.to_string()).collect();
             let i = (rng.next() % l.len() as u64) as usize;
             match rng.next() % 6 {
